@@ -9,6 +9,8 @@ threads alive, a follow-up transfer works).  DESIGN.md 5/C08.
 from hypothesis import strategies as st
 
 from vlib import world as W
+from vlib import simbus
+from vlib import refcodec as R
 
 SA_O, SA_R = 0x31, 0x52
 PF = 0xC9
@@ -25,6 +27,9 @@ def shapes():
         # handled while the job thread is part-way through its pass over BOTH sessions
         out.append({"dll": dll, "mode": "rts2", "packets": 3, "win": 1})
         out.append({"dll": dll, "mode": "rts+bam", "packets": 3, "win": 255})
+        # receiving role: a broadcast that its originator abandoned after the first packet times out in the job thread while
+        # the originator's next (complete) announcement arrives 1 ms after that deadline
+        out.append({"dll": dll, "mode": "bam_rx", "packets": 3, "win": 1})
     return out
 
 
@@ -72,7 +77,95 @@ class C08:
         return ("exhaustive = every single pre-emption point (traced line) of both job threads for the 8 listed shapes "
                 "and 3 durations; double pre-emptions are sampled")
 
+    def _one_rx(self, p, pre, t_follow=None):
+        """Shape bam_rx: node X (raw) announces a broadcast, sends its first packet and gives it up; the receive session of stack R
+        times out T1 = 0.75 s later - and 1 ms after that deadline X's next announcement arrives, followed by all its packets."""
+        fd = p["dll"] == "j1939-22"
+        seg = 60 if fd else 7
+        size = seg * (p["packets"] - 1) + 3
+        SA_X = 0x77
+        pgn = PF << 8
+        pre_spec = [{"thread": t, "k": k, "d": d} for t, k, d in pre]
+        lat_r = 0.0005
+        w = W.World(latency={"O": p["lat"]["O"], "R": [lat_r]}, wake_eps=[0.0, 1e-5], dispatch=[0.0, 1e-5], preempt=pre_spec, trace=True)
+        obs = {"src": SA_X}
+        try:
+            o = w.stack("O", dll=p["dll"], max_cmdt=255)
+            r = w.stack("R", dll=p["dll"], max_cmdt=p["win"])
+            o.add_ca("o", 0x100, SA_O)
+            r.add_ca("r", 0x200, SA_R)
+            r.add_ca("r2", 0x201, SA_R + 1)
+            o.listen_ca("o")
+            r.listen_ca("r")
+            r.listen_ca("r2")
+            x = simbus.RawNode(w.bus, "X")
+            data1 = W.make_payload({"n": size, "cls": "arith", "a": 1, "b": 7})
+            data = W.make_payload({"n": size, "cls": "pos", "seg": seg})
+            gap = 0.011 if fd else 0.051
+
+            def announce(d):
+                if fd:
+                    x.send(R.mk_id(7, 0, 0x4D, 255, SA_X), R.fd_bam(1, len(d), p["packets"], pgn), fd=True)
+                else:
+                    x.send(R.mk_id(7, 0, 0xEC, 255, SA_X), R.tp_bam(len(d), p["packets"], pgn))
+
+            def packet(d, i):
+                chunk = bytes(d[(i - 1) * seg:i * seg])
+                if fd:
+                    x.send(R.mk_id(7, 0, 0x4E, 255, SA_X), R.fd_dt(1, i, chunk), fd=True)
+                    if i == p["packets"]:
+                        x.send(R.mk_id(7, 0, 0x4D, 255, SA_X), R.fd_eoms(1, len(d), p["packets"], pgn), fd=True)
+                else:
+                    x.send(R.mk_id(7, 0, 0xEB, 255, SA_X), R.tp_dt(i, chunk))
+            t1 = 0.05 + gap                       # the abandoned broadcast's only packet
+            w.at(0.05, lambda: announce(data1))
+            w.at(t1, lambda: packet(data1, 1))
+            deadline = t1 + lat_r + 0.75          # T1 after that packet reached R
+            t2 = deadline + 0.001 - lat_r         # the next announcement reaches R 1 ms after the deadline
+            w.at(deadline - 0.002, lambda: setattr(w.sim, "trace_armed", True))
+            w.at(t2, lambda: announce(data))
+            for i in range(1, p["packets"] + 1):
+                w.at(t2 + i * gap, (lambda i: (lambda: packet(data, i)))(i))
+            t_done = t2 + (p["packets"] + 1) * gap + 0.01
+            if t_follow is None:
+                w.run_until(w.t0 + t_done)
+                obs["t_idle"] = w.sim.now - w.t0
+            else:
+                w.run_until(w.t0 + max(t_follow, t_done))
+            w.sim.trace_armed = False
+            obs["lines"] = dict(w.sim.line_counts)
+            obs["r1"] = True
+            obs["deliv"] = [(d[3], d[4], d[5]) for d in r.deliveries if d[3] == pgn and d[1] == "r"]
+            obs["delivB"], obs["rB"], obs["dataB"] = [], True, b""
+            obs["data"] = bytes(data)
+            obs["tables"] = (o.peek_sessions(), r.peek_sessions())
+            obs["preempts"] = [e for e in w.sim.obs if e[1] == "preempt"]
+            hit = False
+            for (t, _, det) in obs["preempts"]:
+                stk = o if det[0] == 0 else r
+                if any(t <= tr <= t + det[2] for tr, _ in stk.received):
+                    hit = True
+            obs["hit"] = hit
+            # follow-up: a broadcast of the other library stack still arrives
+            nd = len(r.deliveries)
+            data2 = W.make_payload({"n": size, "cls": "arith", "a": 5, "b": 3})
+            try:
+                obs["r2"] = o.cas["o"].send_pgn(0, PF, 255, 6, list(data2))
+            except Exception as e:  # noqa
+                obs["r2"] = "EXC:%r" % (e,)
+            w.run_for((p["packets"] + 3) * 0.06 + 0.5)
+            obs["deliv2"] = [(d[3], d[4], d[5]) for d in r.deliveries[nd:] if d[1] == "r"]
+            obs["data2"] = bytes(data2)
+            obs["live"] = w.liveness_problems()
+            obs["alive"] = o.alive() and r.alive()
+            obs["dead"] = o.dead_threads() + r.dead_threads()
+        finally:
+            w.close()
+        return obs
+
     def _one(self, p, pre, t_follow=None):
+        if p["mode"] == "bam_rx":
+            return self._one_rx(p, pre, t_follow)
         fd = p["dll"] == "j1939-22"
         seg = 60 if fd else 7
         size = seg * (p["packets"] - 1) + 3
@@ -165,7 +258,7 @@ class C08:
             V("thread-dead", "job thread dead: %r (pre-empted at %s)" % (obs["dead"], where), site)
         if obs["r1"] is not True:
             V("send-refused", "send_pgn returned %r" % (obs["r1"],), site)
-        got = [d for d in obs["deliv"] if d[0] == pgn and d[1] == SA_O]
+        got = [d for d in obs["deliv"] if d[0] == pgn and d[1] == obs.get("src", SA_O)]
         if len(got) != 1:
             V("not-delivered" if not got else "delivered-twice", "payload delivered %d times (baseline: once); job thread "
               "pre-empted at %s" % (len(got), where), site)
